@@ -17,6 +17,8 @@ InvLayerGates(L, q) == IF q = N THEN <<>> ELSE InvLocWord(L[q], q) \o InvLayerGa
 RECURSIVE ApplyLayerC(_, _, _)
 ApplyLayerC(L, q, p) == IF q = N THEN p ELSE ApplyLayerC(L, q + 1, Loc(L[q], q, p))
 SoundL(L, ps, g) == LET GG == Span(GraphGens(N, g)) IN \A k \in DOMAIN ps : ApplyLayerC(L, 0, Body(ps[k])) \in GG
+(* the same with the graph state's group computed once by the caller *)
+SoundLG(L, ps, GG) == \A k \in DOMAIN ps : ApplyLayerC(L, 0, Body(ps[k])) \in GG
 
 (* the H-H cancellation pass: delete two h on the same qubit with nothing in between on that qubit *)
 Touches(g, q) == g[2] = q \/ g[3] = q
